@@ -120,6 +120,15 @@ TRANSPARENT = {
     ("core::future::get_context", "get_context"),  # async lowering: ResumeTy -> &mut Context
 }
 
+ARITH_CALLS = {
+    "checked_add": ("checked", "Add"), "checked_sub": ("checked", "Sub"),
+    "wrapping_add": ("plain", "Add"), "wrapping_sub": ("plain", "Sub"),
+    "saturating_add": ("plain", "Add"), "saturating_sub": ("plain", "SubSat"),
+    "unchecked_add": ("plain", "Add"), "unchecked_sub": ("plain", "Sub"),
+    "strict_add": ("plain", "Add"), "strict_sub": ("plain", "Sub"),
+}
+INT_TYPES = {"usize", "u8", "u16", "u32", "u64", "u128", "isize", "i8", "i16", "i32", "i64", "i128"}
+
 # blanket `impl<I: Iterator> IntoIterator for I` is the identity
 IDENTITY_CPATHS = {
     "core::iter::traits::collect::{impl#0}::into_iter",
@@ -227,6 +236,8 @@ class Terms:
                 name = int(name)
             if self.subst is not None and t == ("param", 1) and e["f"] in self.subst:
                 return self.subst[e["f"]]
+            if t[0] == "variant" and t[2] == "Some" and t[1][0] == "checked" and name == 0:
+                return t[1][1]       # the payload of `x.checked_sub(y)` matched as Some(d) is x - y
             return ("field", t, name)
         if "dc" in e:
             return ("variant", t, e["name"] if e.get("name") else e["dc"])
@@ -332,6 +343,15 @@ class Terms:
             return ("repeat", self.of_operand(rv["op"], depth), rv["n"])
         return ("rv", k)
 
+    def _int_conversion(self, c):
+        """`<int as From<int>>::from` / `Into::into` between primitive integers (std only implements the lossless ones)"""
+        try:
+            tys = [self.facts.types[i] for i in (c.raw.get("args") or []) if isinstance(i, int)]
+        except Exception:
+            return False
+        prim = [t for t in tys if t.get("k") == "prim" and t.get("name") in INT_TYPES]
+        return len(tys) >= 2 and len(prim) == len(tys)
+
     def of_call(self, b, t, depth):
         c = self.callee(b)
         args = t["args"]
@@ -342,7 +362,19 @@ class Terms:
                 # container[idx] through the Index/IndexMut traits (Vec, Slab, SmallVec, FixedBitSet)
                 return ("index", self.of_operand(args[0], depth), self.of_operand(args[1], depth))
             if c.key in UNWRAP and args:
-                return ("field", ("variant", self.of_operand(args[0], depth), UNWRAP[c.key]), 0)
+                inner = self.of_operand(args[0], depth)
+                if inner[0] == "checked" and UNWRAP[c.key] == "Some":
+                    return inner[1]      # x.checked_add(k).expect(..) / .unwrap() is x + k (or a panic)
+                return ("field", ("variant", inner, UNWRAP[c.key]), 0)
+            if c.name in ("from", "into") and c.trait in ("From", "Into") and len(args) == 1 and self._int_conversion(c):
+                return self.of_operand(args[0], depth)      # usize::from(x_u8): lossless widening, same number
+            if c.name in ARITH_CALLS and (c.key[0] in INT_TYPES or c.key[0] == "prim") and len(args) == 2:
+                # integer arithmetic spelled as a method: one spelling per operation (the counters of this crate are
+                # bounded by the number of children, so the overflow behaviours do not differ on any reachable value;
+                # saturating_sub keeps its own operator because `a.saturating_sub(b) == 0` means a <= b)
+                kind, op = ARITH_CALLS[c.name]
+                t_ = ("binop", op, self.of_operand(args[0], depth), self.of_operand(args[1], depth))
+                return ("checked", t_) if kind == "checked" else t_
             if c.key in (("Option", "map"), ("Pin", "map_unchecked_mut"), ("Pin", "map_unchecked")) and len(args) == 2:
                 # closure-mapped views: an identity / re-pinning closure leaves the designated object
                 # unchanged; an indexing closure `|x| &mut x[i]` designates element i
